@@ -429,6 +429,13 @@ func runC07(c *Ctx) {
 	// R7: a handler blocked on its request context must be released before Serve joins the workers (shared with C11.R11)
 	checkContextCancelledBeforeJoin(c, "R7")
 	checkHandleCommandsOrdered(c, "R8")
+	// R9: no reply bypasses the packet manager ("responses emitted are a prefix of the correct ones"): shared with C02.R3
+	if se := p.Func("(*serverConn).sendError"); se != nil {
+		n := len(p.callersOfStatic(se)) + len(p.refsAsValue(se))
+		c.check(n == 0, "R9", "sendError unused", p.Pos(se.Pos()), "serverConn.sendError has no caller", "a receive loop answers a request directly with serverConn.sendError: that reply is written at once and overtakes the replies to earlier requests that are still being served")
+	}
+	// R10: oversized and empty frames are refused before the body is read, with and without the allocator (shared with C08.O3)
+	c.withRule("R10", func() { checkFrameLimits(c, newZWorld(p)) })
 }
 
 // checkJoinUnderLock: a function that waits for goroutines (WaitGroup.Wait) must not hold a mutex that the
